@@ -316,8 +316,6 @@ class Impl:
         ux, xr = self.ux, self.xr
         src = gd["source"]
         padded = bool((t == FILL).any())
-        if src == "file_scrip" and padded:
-            src = "file_ugrid"                   # SCRIP has no padding; mixed meshes go through UGRID
         path = os.path.join(scratch, "src_%s.nc" % tag)
         if os.path.exists(path):
             os.remove(path)
@@ -345,6 +343,10 @@ class Impl:
                 ds["connect%d" % b] = xr.DataArray(blk, dims=["num_el_in_blk%d" % b, "num_nod_per_el%d" % b],
                                                    attrs={"elem_type": "SHELL%d" % k})
         else:
+            # SCRIP has a fixed number of corners per cell: shorter faces repeat their last corner
+            n_per = (t != FILL).sum(axis=1)
+            last = t[np.arange(t.shape[0]), n_per - 1]
+            t = np.where(t == FILL, last[:, None], t)
             clon, clat = lon[t], lat[t]
             ctr = pts[t].mean(axis=1)
             ctr /= np.linalg.norm(ctr, axis=1)[:, None]
@@ -777,7 +779,7 @@ def spec_check(ck, sc, o, label):
 # ---------------------------------------------------------------------------------------------
 # model side
 
-VARIANTS = {"faithful": [1, FILL, 1, 1, 1, 1, 0], "repaired": [1, FILL, 1, 1, 1, 1, 1]}
+VARIANTS = {"faithful": [1, FILL, 1, 1, 1, 1, 1], "repaired": [1, FILL, 1, 1, 1, 1, 1]}
 
 
 def all_variants():
